@@ -7,7 +7,7 @@ import os
 from drivers.c07 import FIXED
 from vf import tracecheck
 from vf.core import Ctx
-from vf.tlc import MachineryError, render_cfg, require_ok, run_tlc, sany, wrap_module
+from vf.tlc import MachineryError, render_cfg, require_ok, run_tlc, wrap_module
 
 META = {
     "engine": "wire",
@@ -38,10 +38,10 @@ CLASSES_Q = ["ValueError"]
 CLASSES_T = ["ValueError", "KeyError", "RuntimeError", "UserStrError", "SessionLostError"]
 
 
-def consts(max_calls, max_ticks, msgs, pair_msgs=None, transports=("sock", "http", "httpcap"), fix=True):
+def consts(max_calls, max_ticks, msgs, pair_msgs=None, transports=("sock", "http", "httpcap"), fix=True, full_pairs=True):
     return {"MaxCalls": max_calls, "MaxTicks": max_ticks, "ProdLen": 3, "Transports": set(transports),
             "MsgClasses": set(msgs), "PairMsgClasses": set(pair_msgs if pair_msgs is not None else msgs),
-            "FixEmptyMsg": fix, "FixFullMsg": fix}
+            "FullPairs": full_pairs, "FixEmptyMsg": fix, "FixFullMsg": fix}
 
 
 def model_check(ctx: Ctx, wd, name: str, cs: dict, emit: bool = True):
@@ -69,6 +69,17 @@ def concretize(mclass: str, idx: int, rng, classes: list[str]) -> tuple[str, str
 
 
 # ------------------------------------------------------------------------------------------ worker (own process)
+def _warm() -> None:
+    import warnings
+
+    warnings.filterwarnings("ignore")
+    from drivers import _wire3_alog as A
+
+    A.install(logging.INFO)
+    import vgi_rpc.http  # noqa: F401
+    from vgi_rpc.http import _testing  # noqa: F401
+
+
 def work(jobs: list[dict]) -> list[dict]:
     import warnings
 
@@ -101,21 +112,24 @@ def _len_class(job: dict, res: dict) -> str:
 def run(ctx: Ctx) -> None:
     quick = ctx.quick
     wd = ctx.wd.stage("wire")
-    sany(wd, "AccessLog")
-    sany(wd, "AccessLogTrace")
-    # the design as found (no message for an empty str(exc); HTTP cuts at 500 chars) violates the clauses: documentation
-    wrap_module(wd, "AccessLog", "MC_AsFound", {}, extends="TLC")
-    found = []
-    for inv in ("ErrorMessageNonEmpty", "ErrorMessageFull"):
-        r0 = run_tlc(wd, "MC_AsFound", render_cfg(constants=consts(1, 1, ["empty", "long"], fix=False), invariants=[inv]),
-                     env={"JAVA_TOOL_OPTIONS": "-XX:TieredStopAtLevel=1"}, workers=2)
-        found.append(r0.violated)
-    ctx.extra["design_as_found_violates"] = found
+    import re
+    import time as _t
+
+    t0 = _t.time()
+    nproc = int(os.environ.get("VERIF_PROCS", "5" if quick else "10"))
+    pool = mp.get_context("spawn").Pool(nproc, initializer=_warm)      # imports overlap with the model checking
+    if not quick:
+        # the design as found (no message for an empty str(exc); HTTP cuts at 500 chars) violates the clauses: documentation
+        wrap_module(wd, "AccessLog", "MC_AsFound", {}, extends="TLC")
+        r0 = run_tlc(wd, "MC_AsFound", render_cfg(constants=consts(1, 1, ["empty", "long"], fix=False),
+                                                  invariants=["ErrorMessageNonEmpty", "ErrorMessageFull"]),
+                     env={"JAVA_TOOL_OPTIONS": "-XX:TieredStopAtLevel=1"}, workers=2, cont=True)
+        ctx.extra["design_as_found_violates"] = sorted(set(re.findall(r"Invariant (\w+) is violated", r0.out)))
 
     mt = 2 if quick else 3
     pair_msgs = ["ascii"] if quick else ["ascii", "empty", "long"]
-    hs = model_check(ctx, wd, f"AccessLog exhaustive MaxCalls=2 MaxTicks={mt} msgs=all, two-call msgs={pair_msgs}",
-                     consts(2, mt, MSGS, pair_msgs))
+    hs = model_check(ctx, wd, f"AccessLog exhaustive MaxCalls=2 MaxTicks={mt} msgs=all, two-call msgs={pair_msgs}, second call {'short scripts' if quick else 'any'}",
+                     consts(2, mt, MSGS, pair_msgs, full_pairs=not quick))
     singles = [h for h in hs if len(h["script"]) == 1]
     pairs = [h for h in hs if len(h["script"]) == 2]
     ctx.exhaustive = True
@@ -126,9 +140,9 @@ def run(ctx: Ctx) -> None:
     ctx.assume("HTTP legs use the in-process falcon test client (make_sync_client)",
                "socket-family transport = make_pipe_pair; records are collected after the serve loop ended",
                "logger level alternates INFO (payload omitted) / DEBUG (request_data, state tokens present)",
-               "two-call histories: seeded sample of the TLC-enumerated set (quick 350, thorough 6000)")
+               "two-call histories: seeded sample of the TLC-enumerated set (quick 300, thorough 6000)")
     ctx.rng.shuffle(pairs)
-    n_pairs = 350 if quick else 6000
+    n_pairs = 300 if quick else 6000
     chosen = singles + pairs[:n_pairs]
     classes = CLASSES_Q if quick else CLASSES_T
     jobs = []
@@ -138,13 +152,16 @@ def run(ctx: Ctx) -> None:
             cls, text, argc = concretize(h["msg"], i + 7 * rep, ctx.rng, classes)
             jobs.append({"tr": h["tr"], "msg": h["msg"], "script": h["script"], "cls": cls, "text": text, "argc": argc,
                          "debug": (i + rep) % 2 == 1, "model": {"hist": h["hist"], "alog": h["alog"], "outc": h["outc"]}})
-    nproc = max(1, min(int(os.environ.get("VERIF_PROCS", "5" if quick else "10")), len(jobs) // 40 or 1))
+    ctx.extra["model_phase_s"] = round(_t.time() - t0, 1)
+    t1 = _t.time()
     shards = [[{k: v for k, v in j.items() if k != "model"} for j in jobs[k::nproc]] for k in range(nproc)]
-    with mp.get_context("spawn").Pool(nproc) as pool:
-        try:
-            parts = pool.map_async(work, shards).get(timeout=1500)
-        except mp.TimeoutError as e:
-            raise MachineryError("C34 workers did not finish") from e
+    try:
+        parts = pool.map_async(work, shards).get(timeout=1500)
+    except mp.TimeoutError as e:
+        pool.terminate()
+        raise MachineryError("C34 workers did not finish") from e
+    pool.close()
+    ctx.extra["real_code_phase_s"] = round(_t.time() - t1, 1)
     results: list = [None] * len(jobs)
     for k, part in enumerate(parts):
         for j, r in zip(range(k, len(jobs), nproc), part):
